@@ -9,6 +9,7 @@ import (
 	"fmt"
 	"os"
 	"sort"
+	"strings"
 	"sync/atomic"
 	"time"
 
@@ -27,6 +28,7 @@ const (
 	nsFA5  = "C03-A5"  // majority precommit for NextRound
 	nsFA6  = "C03-A6"  // PH PrevCommitProof key absent from committing view
 	nsFA7  = "C03-A7"  // round entrance for a view the mirror left / not reached
+	nsFA7b = "C03-A7b" // round entrance above the round in which the mirror committed that height (WrongCommit)
 	nsFA15 = "C03-A15" // round entered with majority power present but no majority target
 	nsFA17 = "C03-A17" // mirror fed next-height traffic while state machine is still on the committing height
 	nsFA21 = "C03-A21" // StandardRoundTimer start/cancel race (scheduler dependent, cannot be excluded)
@@ -96,12 +98,11 @@ type nsExec struct {
 	pending  []nsPend
 	pendKeys map[string]struct{}
 	// per node
-	seenSig     []map[string]struct{}
-	seenPH      []map[string]struct{}
-	delivered   [][]*nsMsg
-	restartSM   []nsHR // state machine store value at last restart (for the finalization bump)
-	restartBump []bool // the finalization of that height existed at restart: the machine entered height+1
-	part        []int  // partition group per node (nil: none)
+	seenSig   []map[string]struct{}
+	seenPH    []map[string]struct{}
+	delivered [][]*nsMsg
+	restartSM []nsHR // state machine store value at last restart (for the finalization bump)
+	part      []int  // partition group per node (nil: none)
 
 	knownPH []tmconsensus.ProposedHeader
 
@@ -297,9 +298,12 @@ func (x *nsExec) roundState(n *nsNode, h uint64, r uint32) (phs []tmconsensus.Pr
 // nsEx reports whether the hold-back rule of a finding is active: normally
 // while the finding is listed; NS_ONLY=<id> (development aid) activates every
 // rule except that one, NS_ALL activates all.
-var nsOnly, nsAll = os.Getenv("NS_ONLY"), os.Getenv("NS_ALL") != ""
+var nsOnly, nsAll, nsOff = os.Getenv("NS_ONLY"), os.Getenv("NS_ALL") != "", os.Getenv("NS_OFF")
 
 func nsEx(id string) bool {
+	if nsOff != "" && strings.Contains(","+nsOff+",", ","+id+",") {
+		return false // NS_OFF=<id>,<id>: these rules off, everything else as listed
+	}
 	if nsOnly != "" {
 		return id != nsOnly
 	}
@@ -372,6 +376,13 @@ func (x *nsExec) admitPH(n *nsNode, p nsPos, ph tmconsensus.ProposedHeader) (str
 	if h > p.SH {
 		if h == p.VH+1 && nsExcl(nsFA4) {
 			return nsFA4, false
+		}
+		if h == p.VH+1 && p.VH == p.SH {
+			// A4 is repaired: a proposal for the next height may carry the commit of the
+			// voting height (catch-up through the previous-commit proof). The machine is
+			// still live on that height, so this is not "mirror ahead of its machine".
+			x.count("next-height-ph")
+			return "", false
 		}
 		return nsFutureHeightRule(), false
 	}
@@ -715,8 +726,8 @@ func (x *nsExec) restartAdmit(n *nsNode) string {
 			}
 		}
 	case ch > 0 && e.H == ch:
-		if e.R > cr && nsEx(nsFA3) {
-			return nsFA3
+		if e.R > cr && nsEx(nsFA7b) {
+			return nsFA7b
 		}
 		if e.R < cr && nsEx(nsFS1) {
 			return nsFS1 // replay of a header committed in a later round than the entered one
